@@ -368,7 +368,7 @@ Qed.
 Lemma step_glob fuel loc cmd arg s : (forall s0, Step s0 (fst (exec (snd (re_read arg)) s0))) ->
   Step s (fst (ec_glob rvalid rfind exec fuel loc cmd arg s)).
 Proof.
-  intro Hx. unfold ec_glob.
+  intro Hx. unfold ec_glob. destruct (GDEPMAX <=? xgdep s)%nat; [same|].
   set (loc' := match loc, xgdep s with [], O => [37%N] | _, _ => loc end).
   reg loc' s. destruct (_ || _); [exact R|].
   destruct (re_read arg) as [pat body]. cbn [snd] in Hx.
